@@ -1059,6 +1059,98 @@ fn run_par_block<F: BoolExt>(
     out("ENDPAR -> ok".to_string());
 }
 
+/// C07m: the parallel block of `run_par_block` for the interpreters that are not `BoolInterp`
+/// (MTBDD, TDD): thread i executes its lines in order through `exec` on a private `Core` that
+/// starts from a copy of the current slots; output and merge exactly as in `run_par_block`.
+fn run_par_core<F>(
+    core: &mut Core<F>,
+    k: usize,
+    lines: &[String],
+    seed: u64,
+    yield_permille: u64,
+    out: &mut dyn FnMut(String),
+    exec: &(dyn Fn(&mut Core<F>, &[&str]) -> Result<String, String> + Sync),
+) where
+    F: Function + Clone + Eq + Ord + Hash + Send + 'static,
+    for<'id> F::Manager<'id>: Manager + oxidd::HasWorkers,
+    for<'id> <F::Manager<'id> as Manager>::InnerNode: HasLevel,
+    F::ManagerRef: Send,
+{
+    let mut per: Vec<Vec<(usize, String)>> = vec![Vec::new(); k];
+    for (i, l) in lines.iter().enumerate() {
+        let (t, op) = l.split_once(' ').expect("T<i> op");
+        let ti: usize = t.trim_start_matches('T').parse().expect("thread index");
+        per[ti].push((i, op.to_string()));
+    }
+    out(format!("PAR {k} -> begin"));
+    vtrace::begin(seed, yield_permille);
+    let base = core.slots.clone();
+    let mref = core.mref.clone();
+    let barrier = std::sync::Barrier::new(k);
+    let done = std::sync::atomic::AtomicUsize::new(0);
+    let results: Vec<(Vec<(usize, String, String)>, BTreeMap<usize, F>)> = std::thread::scope(|sc| {
+        let hs: Vec<_> = per
+            .iter()
+            .enumerate()
+            .map(|(ti, ops)| {
+                let (barrier, done) = (&barrier, &done);
+                let (my_mref, my_slots) = (mref.clone(), base.clone());
+                sc.spawn(move || {
+                    vtrace::enter_thread(ti, seed);
+                    let mut t = Core::<F> { mref: my_mref, slots: my_slots };
+                    let mut res = Vec::new();
+                    barrier.wait();
+                    for (i, op) in ops {
+                        let tok: Vec<&str> = op.split_whitespace().collect();
+                        if tok[0] == "PGC" && tok.len() == 2 {
+                            // `PGC <max>`: collections for as long as another thread of the block works
+                            let max: usize = tok[1].parse().expect("PGC <max>");
+                            let mut n = 0;
+                            while n < max && done.load(std::sync::atomic::Ordering::Relaxed) + 1 < k {
+                                let _ = exec(&mut t, &["PGC"]);
+                                n += 1;
+                            }
+                            res.push((*i, op.clone(), format!("collections {n}")));
+                            continue;
+                        }
+                        let r = match exec(&mut t, &tok) {
+                            Ok(r) => r,
+                            Err(e) => format!("err {e}"),
+                        };
+                        res.push((*i, op.clone(), r));
+                    }
+                    done.fetch_add(1, std::sync::atomic::Ordering::Relaxed);
+                    (res, t.slots)
+                })
+            })
+            .collect();
+        hs.into_iter().map(|h| h.join().expect("thread of a parallel block panicked")).collect()
+    });
+    let events = vtrace::end();
+    let mut all: Vec<(usize, String, String)> = Vec::new();
+    for (res, slots) in results {
+        all.extend(res);
+        for (k2, f) in &slots {
+            if base.get(k2) != Some(f) {
+                core.slots.insert(*k2, f.clone());
+            }
+        }
+        for k2 in base.keys() {
+            if !slots.contains_key(k2) {
+                core.slots.remove(k2);
+            }
+        }
+    }
+    all.sort_by_key(|x| x.0);
+    for (_, op, r) in all {
+        out(format!("{op} -> {r}"));
+    }
+    for e in events {
+        out(e);
+    }
+    out("ENDPAR -> ok".to_string());
+}
+
 /// Event trace and schedule perturbation through the hooks of /repo (`--cfg oxidd_verif`);
 /// without the flag the functions do nothing.
 mod vtrace {
@@ -1392,13 +1484,9 @@ mod mt {
         let mref = oxidd::mtbdd::new_manager::<T>(cap, tcap, cache, threads);
         let mut core: Core<Fun<T>> = Core { mref, slots: BTreeMap::new() };
         let gcall = case.param("gcall") == Some("1");
-        for line in &case.ops {
-            let tok: Vec<&str> = line.split_whitespace().collect();
-            if gcall && tok[0] != "SNAP" {
-                core.mref.with_manager_exclusive(|m| m.gc());
-            }
-            let res: Result<String, String> = (|| {
-                if let Some(r) = core.exec(&tok) {
+        // one operation (also executed by the threads of a parallel block, C07m)
+        fn exec1(core: &mut Core<Fun<T>>, tok: &[&str], tcap: usize) -> Result<String, String> {
+                if let Some(r) = core.exec(tok) {
                     return r;
                 }
                 match tok[0] {
@@ -1521,8 +1609,29 @@ mod mt {
                     "SNAP" => Ok(core.snapshot(&[], &|t: &T| t.show())),
                     other => Err(format!("unknown-op-{other}")),
                 }
-            })();
-            let res = match res {
+        }
+        vtrace::set_rendezvous(case.param_u64("rdv", 0));
+        let mut idx = 0;
+        let mut par_no = 0u64;
+        while idx < case.ops.len() {
+            let line = &case.ops[idx];
+            idx += 1;
+            let tok: Vec<&str> = line.split_whitespace().collect();
+            if tok[0] == "PAR" {
+                // PAR <k> ... ENDPAR: the lines `T<i> <op>` in between are executed by k OS threads
+                // concurrently on the one manager (C07m)
+                let end = (idx..case.ops.len()).find(|&j| case.ops[j] == "ENDPAR").expect("ENDPAR");
+                let k: usize = tok[1].parse().unwrap();
+                par_no += 1;
+                run_par_core(&mut core, k, &case.ops[idx..end], case.param_u64("seed", 1) ^ (par_no << 32),
+                             case.param_u64("yield", 0), out, &|c, t| exec1(c, t, tcap));
+                idx = end + 1;
+                continue;
+            }
+            if gcall && tok[0] != "SNAP" {
+                core.mref.with_manager_exclusive(|m| m.gc());
+            }
+            let res = match exec1(&mut core, &tok, tcap) {
                 Ok(r) => r,
                 Err(e) => format!("err {e}"),
             };
@@ -1559,12 +1668,12 @@ mod tv {
         let cache = case.param_u64("cache", 1 << 12) as usize;
         let threads = case.param_u64("threads", 1) as u32;
         let snap_each = case.param("snap") == Some("each");
+        let gcall = case.param("gcall") == Some("1");
         let mref = oxidd::tdd::new_manager(cap, cache, threads);
         let mut core: Core<TDDFunction> = Core { mref, slots: BTreeMap::new() };
-        for line in &case.ops {
-            let tok: Vec<&str> = line.split_whitespace().collect();
-            let res: Result<String, String> = (|| {
-                if let Some(r) = core.exec(&tok) {
+        // one operation (also executed by the threads of a parallel block, C07m)
+        fn exec1(core: &mut Core<TDDFunction>, tok: &[&str]) -> Result<String, String> {
+                if let Some(r) = core.exec(tok) {
                     return r;
                 }
                 match tok[0] {
@@ -1643,6 +1752,98 @@ mod tv {
                         }
                         Ok(s)
                     }
+                    "T3FILL" => {
+                        // TDDx (C05, C14): capacity probe for ternary nodes.  Base: two-valued functions g of
+                        // x1..x3 (closed under negation), gl = g AND u (values F/U), gh = g OR u (values U/T).
+                        // Each probe step creates exactly ONE node at level 0 (all results kept alive):
+                        //   x0 AND gl = (gl, gl, F)   NOT x0 AND gl = (F, gl, gl)   x0 OR gh = (T, gh, gh)
+                        //   NOT x0 OR gh = (gh, gh, T)   x0 EQUIV g = (g, U, NOT g)
+                        // until the manager reports out-of-memory; needs >= 4 variables, identity order
+                        if core.nvars() < 4 {
+                            return Err("skip".into());
+                        }
+                        let res: Result<(usize, usize, usize, bool), String> = core.mref.with_manager_shared(|m| {
+                            if (0..4).any(|v| m.var_to_level(v) != v) {
+                                return Err("skip".to_string());
+                            }
+                            let x = |v: VarNo| oom(TDDFunction::var(m, v));
+                            let (x0, x1, x2, x3) = (x(0)?, x(1)?, x(2)?, x(3)?);
+                            let nx0 = oom(x0.not())?;
+                            let u = TDDFunction::u(m);
+                            // two-valued functions: built from two-valued operands by connectives that keep F/T
+                            let ind = |v: &TDDFunction| -> Result<TDDFunction, String> {
+                                // I_T(v) = NOT (v IMP NOT v): true iff v is true, false otherwise
+                                oom(oom(v.imp(&oom(v.not())?))?.not())
+                            };
+                            // `T3FILL <k>`: only the first k of the 14 base functions (a smaller base for small stores)
+                            let lim = tok.get(1).and_then(|t| t.parse::<usize>().ok()).unwrap_or(14).max(1);
+                            let b1 = ind(&x1)?;
+                            let mut two: Vec<TDDFunction> = vec![b1.clone()];
+                            if lim > 1 {
+                                let (b2, b3) = (ind(&x2)?, ind(&x3)?);
+                                two.push(b2.clone());
+                                two.push(b3.clone());
+                                for (a, b) in [(&b1, &b2), (&b2, &b3), (&b1, &b3)] {
+                                    for k in 0..3 {
+                                        if two.len() < lim {
+                                            two.push(oom(match k {
+                                                0 => a.and(b),
+                                                1 => a.or(b),
+                                                _ => a.xor(b),
+                                            })?);
+                                        }
+                                    }
+                                }
+                                if two.len() < lim {
+                                    two.push(oom(oom(b1.and(&b2))?.and(&b3))?);
+                                }
+                                if two.len() < lim {
+                                    two.push(oom(oom(b1.xor(&b2))?.xor(&b3))?);
+                                }
+                                two.truncate(lim);
+                            }
+                            let negs: Vec<TDDFunction> = two.iter().map(|g| oom(g.not())).collect::<Result<_, _>>()?;
+                            two.extend(negs);
+                            let lo: Vec<TDDFunction> = two.iter().map(|g| oom(g.and(&u))).collect::<Result<_, _>>()?;
+                            let hi: Vec<TDDFunction> = two.iter().map(|g| oom(g.or(&u))).collect::<Result<_, _>>()?;
+                            let before = m.num_inner_nodes();
+                            let mut keep: Vec<TDDFunction> = Vec::new();
+                            let mut hit = false;
+                            'outer: for k in 0..5 {
+                                for i in 0..two.len() {
+                                    // (transient failures while a background collection holds freed slots: retry)
+                                    let mut tries = 0;
+                                    let r = loop {
+                                        let r = match k {
+                                            0 => x0.and(&lo[i]),
+                                            1 => nx0.and(&lo[i]),
+                                            2 => x0.or(&hi[i]),
+                                            3 => nx0.or(&hi[i]),
+                                            _ => x0.equiv(&two[i]),
+                                        };
+                                        match r {
+                                            Ok(f) => break Some(f),
+                                            Err(_) if tries < 40 => {
+                                                tries += 1;
+                                                std::thread::sleep(Duration::from_millis(3));
+                                            }
+                                            Err(_) => break None,
+                                        }
+                                    };
+                                    match r {
+                                        Some(f) => keep.push(f),
+                                        None => {
+                                            hit = true;
+                                            break 'outer;
+                                        }
+                                    }
+                                }
+                            }
+                            Ok((before, keep.len(), m.num_inner_nodes(), hit))
+                        });
+                        let (before, created, at_end, hit) = res?;
+                        Ok(format!("before={before} created={created} inner_at_end={at_end} oom={}", hit as u8))
+                    }
                     "DROPALL" => {
                         core.slots.clear();
                         Ok("ok".into())
@@ -1650,8 +1851,28 @@ mod tv {
                     "SNAP" => Ok(core.snapshot(&[], &|t: &TDDTerminal| show(t))),
                     other => Err(format!("unknown-op-{other}")),
                 }
-            })();
-            let res = match res {
+        }
+        vtrace::set_rendezvous(case.param_u64("rdv", 0));
+        let mut idx = 0;
+        let mut par_no = 0u64;
+        while idx < case.ops.len() {
+            let line = &case.ops[idx];
+            idx += 1;
+            let tok: Vec<&str> = line.split_whitespace().collect();
+            if tok[0] == "PAR" {
+                let end = (idx..case.ops.len()).find(|&j| case.ops[j] == "ENDPAR").expect("ENDPAR");
+                let k: usize = tok[1].parse().unwrap();
+                par_no += 1;
+                run_par_core(&mut core, k, &case.ops[idx..end], case.param_u64("seed", 1) ^ (par_no << 32),
+                             case.param_u64("yield", 0), out, &|c, t| exec1(c, t));
+                idx = end + 1;
+                continue;
+            }
+            // gcall=1 (TDDx, C06): a collection (which clears the apply cache) before every operation
+            if gcall && tok[0] != "SNAP" {
+                core.mref.with_manager_exclusive(|m| m.gc());
+            }
+            let res = match exec1(&mut core, &tok) {
                 Ok(r) => r,
                 Err(e) => format!("err {e}"),
             };
